@@ -241,7 +241,7 @@ def incMembers (doc : Document) (fields : GoMap (List GoString)) : List Json :=
 
 theorem documentTree_eq (doc : Document) (fields : GoMap (List GoString)) (s : GoString) :
     Spec.documentTree doc fields s =
-    if isOther doc.data then none
+    if isOther doc.data && doc.errors.isEmpty then none
     else
       some (.obj (sortMembers (
         (if !doc.errors.isEmpty then [(K.errors, .arr (doc.errors.map ErrorObj.toJson))]
